@@ -20,7 +20,8 @@ Inductive ev :=
 | ESocket (sid : Z) (addr : Z)           (* socket() for resolved address number addr (-1: AF_UNIX) *)
 | ESocketFail (addr : Z)
 | ESetopt (sid : Z) (opt : Z)            (* 1 TCP_NODELAY, 2 SO_KEEPALIVE, 3 KEEPIDLE, 4 KEEPINTVL, 5 KEEPCNT *)
-| EWrap (sid : Z) (wrapped : Z)          (* tls_context.wrap_socket(sid) -> wrapped ; -1: it raised *)
+| EWrap (sid : Z) (wrapped : Z)          (* tls_context.wrap_socket(sid) -> wrapped *)
+| EWrapFail (sid : Z)                    (* tls_context.wrap_socket(sid) raised *)
 | ETimeout (sid : Z) (which : Z)         (* settimeout: 0 = connect_timeout, 1 = timeout *)
 | EConnect (sid : Z) (addr : Z)
 | ESend (sid : Z) (b : list Z)
